@@ -443,12 +443,14 @@ func (c *Classifier) multipleMatch(unknown string) *pq.Queue {
 	wg.Add(len(kvals))
 	for _, known := range kvals {
 		go func(known *knownValue) {
+			// The search set is created lazily. The check and the
+			// assignment must happen under the same lock, since other
+			// MultipleMatch calls may be looking at this value too.
+			c.muValues.Lock()
 			if known.set == nil {
-				k := searchset.New(known.normalizedValue, searchset.DefaultGranularity)
-				c.muValues.Lock()
-				c.values[known.key].set = k
-				c.muValues.Unlock()
+				known.set = searchset.New(known.normalizedValue, searchset.DefaultGranularity)
 			}
+			c.muValues.Unlock()
 			m.findMatches(known)
 			wg.Done()
 		}(known)
